@@ -92,7 +92,21 @@ def run(ctx):
     for tiny in (F(0), F(1, 2 * 10 ** 9), F(-3, 10 ** 10)):
         pts.append(dict(pts[ctx.rng.randrange(len(pts))], dt=tiny))
     cal0 = {n: pts[0][n] for n in cal_names}
+    # a SIBLING of the reference model is compiled first in this process: the same expressions over the same symbols, with the
+    # accelerometer bias declared as control inputs instead of calibration values (every positional argument list differs)
+    try:
+        from formak import ui as _ui
+        bias = [x for x in s.calibration if "bias" in x.name]
+        with fk.quiet():
+            sib = _ui.Model(dt=s.dt, state=set(s.state), control=set(s.control) | set(bias), state_model=dict(s.state_model),
+                            calibration=set(s.calibration) - set(bias))
+            python.compile(sib, calibration_map={sym(n): float(cal0[n]) for n in cal_names if sym(n) not in bias},
+                           config={"common_subexpression_elimination": True})
+        ctx.count("sibling_model_compiled_first")
+    except Exception as e:
+        ctx.notes.append(f"sibling model not compiled: {e!r}"[:200])
     for cse in (True, False):
+        held = []
         try:
             with fk.quiet():
                 pm = python.compile(s.symbolic_model, calibration_map={sym(n): float(cal0[n]) for n in cal_names},
@@ -109,7 +123,9 @@ def run(ctx):
                 with fk.quiet():
                     st = pm.State(**{sym(n).name: float(pt[n]) for n in state_names})
                     ct = pm.Control(**{sym(n).name: float(pt[n]) for n in ctl_names})
-                    got_raw = fk.by_name(pm.model(float(pt["dt"]), st, ct))
+                    obj = pm.model(float(pt["dt"]), st, ct)
+                    got_raw = fk.by_name(obj)
+                    held.append((obj, dict(got_raw), case))
             except Exception as e:
                 ctx.fail(f"model-call-raises:{fk.exc_kind(e)}", f"compiled reference model raises {e!r}"[:300], case)
                 continue
@@ -125,6 +141,12 @@ def run(ctx):
                        "dt": core.frac_str(pt["dt"]), "state": [[sym(n).name, core.frac_str(pt[n])] for n in state_names],
                        "control": [[sym(n).name, core.frac_str(pt[n])] for n in ctl_names]}
                 pending.append((drv.add(req), got_raw, case))
+        # a state handed out earlier is still what it was after the later calls
+        for obj, first, case in held:
+            if fk.by_name(obj) != first:
+                ctx.fail("kinematics:result-overwritten", "a state returned by an earlier call of the compiled reference model changed when the "
+                         "model was called again", case)
+                break
     ans = drv.run()
     for idx, got, case in pending:
         a = ans[idx]
